@@ -460,6 +460,7 @@ void run_adversarial(const Case& c, Result& r)
     Harness H(cap, r);
     int Dn = H.h.Dn;
     double floor_key = 1e6; // keys decrease over time so that new cuts are always possible
+    bool cascade = c.s("strategy", "thin") == "cascade";
     auto refill = [&]() {
         for (int i = 0; i < cap && !H.failed; ++i)
             if (!H.model.m.count(i))
@@ -489,6 +490,75 @@ void run_adversarial(const Case& c, Result& r)
         }
         if (!H.walk())
             break;
+        if (cascade)
+        {
+            // second shape-reading pattern: make nodes leave their parent *through the cascade*. For an unmarked non-root y and
+            // each child c of y, decrease as many children of c as it takes to have c cut by the cascading cut (two, or one if
+            // c is already marked). What the implementation does to y at the point where the cascade stops decides whether
+            // y can go on losing children without being cut itself, i.e. whether ranks stay logarithmic in the size.
+            auto ring = [&](fibonacci_heap_node* first) {
+                std::vector<fibonacci_heap_node*> v;
+                if (!first)
+                    return v;
+                fibonacci_heap_node* n = first;
+                int guard = 0;
+                do
+                {
+                    v.push_back(n);
+                    n = n->right;
+                } while (n != first && ++guard < cap + 2);
+                return v;
+            };
+            long cuts = 0;
+            bool deep = c.i("deep", 0) != 0;
+            std::vector<fibonacci_heap_node*> level = ring(H.h.min_root);
+            for (int depth = 0; depth < (deep ? 64 : 1) && !level.empty() && !H.failed; ++depth)
+            {
+                std::vector<fibonacci_heap_node*> below;
+                for (fibonacci_heap_node* z : level)
+                    for (fibonacci_heap_node* y : ring(z->child))
+                    {
+                        if (y->parent != z)
+                            continue;
+                        below.push_back(y);
+                        if (y->marked || g.uni() >= c.d("pcut", 0.9))
+                            continue;
+                        for (fibonacci_heap_node* ch : ring(y->child))
+                        {
+                            if (ch->parent != y || H.failed)
+                                continue;
+                            int need = ch->marked ? 1 : 2;
+                            std::vector<fibonacci_heap_node*> gc = ring(ch->child);
+                            if ((int)gc.size() >= need)
+                            {
+                                for (int j = 0; j < need && !H.failed; ++j)
+                                {
+                                    floor_key -= 1;
+                                    H.op_decrease(gc[j]->index, floor_key, false);
+                                    ++cuts;
+                                }
+                            }
+                            else if (!ch->marked && gc.size() == 1)
+                            {
+                                floor_key -= 1;
+                                H.op_decrease(gc[0]->index, floor_key, false);
+                                ++cuts;
+                            }
+                        }
+                    }
+                level.swap(below);
+            }
+            if (H.failed || !H.walk())
+                break;
+            if (cuts == 0)
+            {
+                // out of moves: shake the shape with a few extractions and a refill
+                for (int q = 0; q < 3 && !H.failed && !H.model.m.empty(); ++q)
+                    H.op_extract();
+                refill();
+            }
+            continue;
+        }
         // choose victims: for every non-root node whose parent is unmarked (or is a root), pick at most one
         // child per parent -- the child with the largest rank (keeps the parent's rank-1 thin subtree).
         std::vector<int> victims;
@@ -534,7 +604,7 @@ void run_adversarial(const Case& c, Result& r)
     r.num["max_rank"] = H.max_rank;
     r.num["Dn"] = Dn;
     r.nontrivial = H.ops > 10;
-    r.tags.push_back(sf("adv:cap%d:maxrank%d:Dn%d", cap, H.max_rank, Dn));
+    r.tags.push_back(sf("adv%s:cap%d:maxrank%d:Dn%d", cascade ? "-cascade" : "", cap, H.max_rank, Dn));
 }
 
 // --------------------------------------------------------------- Dijkstra-shaped histories
